@@ -57,6 +57,65 @@ type program struct {
 	Pkgs     []progPkg `json:"pkgs"`     // in dependency order (imports first)
 	Named    []string  `json:"named"`    // package paths given "on the command line"; empty = all
 	Schedule []string  `json:"schedule"` // optional: S:/E: tokens the actions must follow (needs -trace and -j 1)
+	Query    *implQuery `json:"query"`    // optional: ask go/types whether a type implements an interface (second oracle of C05)
+}
+
+type implQuery struct {
+	Pkg      string `json:"pkg"`
+	Type     string `json:"type"`
+	Ptr      bool   `json:"ptr"`
+	IfacePkg string `json:"iface_pkg"`
+	Iface    string `json:"iface"`
+}
+
+type implAnswer struct {
+	IsIface bool     `json:"is_iface"`
+	Missing []string `json:"missing"`
+	Err     string   `json:"err,omitempty"`
+}
+
+// goTypesAnswer is Go's own verdict: the methods of the interface that are absent from the method set of
+// T (or *T) or present with a non-identical signature.
+func goTypesAnswer(q *implQuery, byPath map[string]*packages.Package) *implAnswer {
+	ans := &implAnswer{Missing: []string{}}
+	tp, ok := byPath[q.Pkg]
+	ip, ok2 := byPath[q.IfacePkg]
+	if !ok || !ok2 {
+		ans.Err = "package not in program"
+		return ans
+	}
+	tobj := tp.Types.Scope().Lookup(q.Type)
+	iobj := ip.Types.Scope().Lookup(q.Iface)
+	if tobj == nil {
+		ans.Err = "type not found"
+		return ans
+	}
+	if iobj == nil {
+		return ans
+	}
+	tn, isType := iobj.(*types.TypeName)
+	if !isType {
+		return ans
+	}
+	iface, isIface := tn.Type().Underlying().(*types.Interface)
+	if !isIface {
+		return ans
+	}
+	ans.IsIface = true
+	var t types.Type = tobj.Type()
+	if q.Ptr {
+		t = types.NewPointer(t)
+	}
+	ms := types.NewMethodSet(t)
+	for i := 0; i < iface.NumMethods(); i++ {
+		m := iface.Method(i)
+		sel := ms.Lookup(m.Pkg(), m.Name())
+		if sel == nil || !types.Identical(sel.Obj().Type(), m.Type()) {
+			ans.Missing = append(ans.Missing, m.Name())
+		}
+	}
+	sort.Strings(ans.Missing)
+	return ans
 }
 
 type outDiag struct {
@@ -85,6 +144,7 @@ type progResult struct {
 	Ann     map[string]*annotations.PackageAnnotations `json:"ann,omitempty"`   // -dump: annotationreader result per named package
 	Markers map[string][]outMarker                     `json:"marks,omitempty"` // -dump: ignorereader markers per named package
 	Millis  int64                                      `json:"ms"`
+	GoTypes *implAnswer                                `json:"gotypes,omitempty"`
 }
 
 var stdImporter = struct {
@@ -231,6 +291,10 @@ func analyzeProgram(p *program, o runOpts) (res progResult) {
 	if err != nil {
 		res.Err = err.Error()
 		return
+	}
+	if p.Query != nil {
+		q := *p.Query
+		res.GoTypes = goTypesAnswer(&q, byPath)
 	}
 	var roots []*packages.Package
 	if len(p.Named) == 0 {
